@@ -20,7 +20,8 @@ def run_native(module, function, inputs, timeout=60):
     objects = inputs['objects']
     next_id = max([ref_num(o) for o in objects] + [0]) + 1
     # the driver keys objects by id string and needs '$ref' ids to be those strings
-    job = {'objects': objects, 'module': module, 'function': function, 'args': inputs['args'], 'next_id': next_id}
+    job = {'objects': objects, 'module': module, 'function': function, 'args': inputs['args'], 'next_id': next_id,
+           'native_pre': inputs.get('native_pre', [])}
     text = json.dumps(job)
     # the driver distinguishes list/dict ids by type when allocating new ones
     p = subprocess.run([NATIVE_PY, DRIVER], input=text, capture_output=True, text=True, timeout=timeout,
@@ -60,8 +61,14 @@ def evaluate_contract(contract, inputs, observed, next_id, timeout_ms=10000):
         exc = make_exc(cls or 'BaseException', [])
         exc.f['fields'] = fields
         out = Outcome('raise', exc=exc)
+    subst = contract.ground_subst(inputs, h0) if hasattr(contract, 'ground_subst') else []
+    if hasattr(contract, 'replay_prepare'):
+        contract.replay_prepare(ctx, K, inputs, h0, h1)
     verdicts = {}
     for label, f in labelled(contract.post(K, out), 'post'):
+        f = zb(f)
+        if subst:
+            f = z3.substitute(f, *subst)
         s = z3.Solver()
         s.set('timeout', timeout_ms)
         for p in ctx.pc:
@@ -83,9 +90,14 @@ def evaluate_contract(contract, inputs, observed, next_id, timeout_ms=10000):
             verdicts[label] = None
     pre_ok = {}
     for label, f in labelled(contract.pre(CallView(ip, args, {}, h0)), 'pre'):
+        f = zb(f)
+        if subst:
+            f = z3.substitute(f, *subst)
+        if hasattr(contract, 'replay_skip_pre') and label in contract.replay_skip_pre:
+            continue
         s = z3.Solver()
         s.set('timeout', timeout_ms)
-        s.add(z3.Not(zb(f)))
+        s.add(z3.Not(f))
         r = s.check()
         pre_ok[label] = True if r == z3.unsat else (False if r == z3.sat else None)
     return verdicts, pre_ok
@@ -96,6 +108,8 @@ def replay(contract, inputs):
     observed, err, next_id = run_native(module, function, inputs)
     if observed is None:
         return {'error': err}
+    if observed.get('kind') == 'precondition-failed':
+        return {'observed': observed, 'reproduced': False}
     verdicts, pre_ok = evaluate_contract(contract, inputs, observed, next_id)
     return {'observed': {k: observed[k] for k in observed if k != 'objects'}, 'post': verdicts, 'pre': pre_ok,
             'reproduced': any(v is False for v in verdicts.values()) and all(v is not False for v in pre_ok.values())}
